@@ -46,7 +46,10 @@ ASSUMPTIONS = [
 
 SCALARS = [("int", 2), ("int", 3), ("int", 7), ("float", 0.5), ("float", 2.0), ("float", 0.1), ("float", 1 / 3),
            ("float", 2.5), ("float", 1e-3), ("float", 1e3), ("np.int32", 2), ("np.int64", 5), ("np.float32", 0.5),
-           ("np.float64", 0.25), ("np.float64", 0.7), ("np.float32", 3.0)]
+           ("np.float64", 0.25), ("np.float64", 0.7), ("np.float32", 3.0),
+           # extreme but finite, non-zero factors (given quantifier: all finite non-zero scalars)
+           ("float", 1e-11), ("float", 1e11), ("np.float64", 3e-12), ("int", 70000), ("np.int32", 70000),
+           ("np.int16", 300), ("np.int64", 100000)]
 
 
 def mk_scalar(t, v):
@@ -237,6 +240,17 @@ def execute(plan, ctx):
             # (python float * np.float32 -> float32 under NEP 50) and stay in float32 for the rest of the chain
             if op["t"] == "np.float32":
                 stat_rtol[0] = 1e-5
+            # precondition (values within the range of the result type): an integer result type that cannot
+            # hold contents*c or errors2*c*c is outside the statement - numpy integers wrap around by design
+            if o in ("mul", "rmul", "imul", "roundtrip"):
+                rdt = np.promote_types(h.dtype, np.asarray(c).dtype)
+                if rdt.kind in "iu":
+                    lim = float(np.iinfo(rdt).max)
+                    if (float(np.abs(before[0]).max(initial=0)) * abs(cf) >= lim
+                            or float(np.abs(before[1]).max(initial=0)) * cf * cf >= lim
+                            or float(np.abs(np.nan_to_num(before[2])).max(initial=0)) * abs(cf) >= lim):
+                        ctx.probe("scaling_skipped_integer_range")
+                        continue
             if op["t"].startswith("np."):
                 ctx.fault("numpy_scalar")
             if np.dtype(h.dtype).kind in "iu":
